@@ -151,6 +151,30 @@ def symmetric_unit(rng):
     return dict(shape=[n, n], coo=[[i, j, 1] for (i, j) in sorted(E)], dtype='int', fmt='csr'), n, shape
 
 
+def paris_exact_ties(kmax=16):
+    """Every complete digraph on 3 nodes with integer weights 1..kmax whose three Paris similarities
+    (a_ij + a_ji) / (out_i in_j + out_j in_i) are EXACTLY equal while the nodes do not all have the same (out, in) weights and the
+    matrix is not symmetric: the nearest-neighbour chain of Paris then lives on its tie rule alone, and any rounding asymmetry
+    between similarity(i, j) and similarity(j, i) can orient the three preferences into a cycle (seed C17_7: fit never returned).
+    Integer cross-multiplication, enumerated in chunks."""
+    import numpy as np
+    v = np.arange(1, kmax + 1, dtype=np.int64)
+    out = []
+    for a01 in range(1, kmax + 1):
+        for a02 in range(1, kmax + 1):
+            a10, a12, a20, a21 = [x.reshape(-1) for x in np.meshgrid(v, v, v, v, indexing='ij')]
+            o0, o1, o2 = a01 + a02, a10 + a12, a20 + a21
+            n0, n1, n2 = a10 + a20, a01 + a21, a02 + a12
+            d01, d12, d02 = o0 * n1 + o1 * n0, o1 * n2 + o2 * n1, o0 * n2 + o2 * n0
+            s01, s12, s02 = a01 + a10, a12 + a21, a02 + a20
+            tie = (s01 * d12 == s12 * d01) & (s01 * d02 == s02 * d01)
+            same = (o0 == o1) & (o1 == o2) & (n0 == n1) & (n1 == n2)
+            asym = (a01 != a10) | (a02 != a20) | (a12 != a21)
+            for k in np.where(tie & ~same & asym)[0]:
+                out.append([[0, a01, a02], [int(a10[k]), 0, int(a12[k])], [int(a20[k]), int(a21[k]), 0]])
+    return out
+
+
 TIE_PARAMS = [{}, dict(resolution=0.5), dict(resolution=0), dict(resolution=2)]
 
 
@@ -215,6 +239,13 @@ def run(ctx, scratch):
             spec = dict(shape=[n, n], coo=coo, dtype='float', fmt='csr')
             for params in (dict(weights='degree'), dict(weights='uniform')):
                 _both(ctx, normal, None, 'Paris', spec, dict(params=params), 'near_tie_' + mode, timeout=5)
+        # exact three-way ties between nodes of different (out, in) weights on weighted digraphs
+        ties = paris_exact_ties(16)
+        ctx.extra['paris_exact_tie_digraphs'] = len(ties)
+        for W in (ties if quick else ties + [[[x * 3 for x in row] for row in W] for W in ties]):
+            spec = dict(shape=[3, 3], coo=[[i, j, W[i][j]] for i in range(3) for j in range(3) if i != j], dtype=rng.choice(['int', 'float']),
+                        fmt='csr')
+            _both(ctx, normal, None, 'Paris', spec, dict(params={}), 'exact_tie_digraph', timeout=5)
         # exact ties: unit-weight symmetric graphs x every registered algorithm (resolution varied where it exists)
         for name in sorted(desc):
             d = desc[name]
